@@ -37,7 +37,7 @@ CHECKS = {
          "Up to four real proxies are booted in one simulated world from one generated peer list (0-16 IPv4/IPv6 entries, with/without self, data centers and tokens, DSE or OSS backend); system.local and system.peers are read through the wire with * and generated selector lists (subsets, order, aliases, count(*), count(col), now()), decoded with the reference data codecs under the advertised types and compared with the configured/backend-derived facts; what each proxy says about itself must equal what every other proxy says about it, host ids are version-3 UUIDs, tokens are distinct and follow address order from the minimum token.", "§7 C10"),
  "C17": ("deterministic simulation with corruption faults: seeded mutation of client byte streams and malformed/unsolicited backend replies around a canary client, under every maximum version; per-goroutine panic capture, deadlock/livelock detectors, canary-correctness oracle",
          "Hostile clients send seeded mutations of valid frames (bit flips, truncation, declared lengths up to 16 MiB, wrong opcode/direction/version bytes, hostile strings in query text, PREPARE keyspace, STARTUP options and batch children) and hostile backend nodes answer with wrong streams, wrong opcodes, short or unknown bodies, duplicate replies, garbage, UNPREPARED for cached ids (also to heartbeats) and garbage events; no SUT goroutine may panic (captured per task, as it would kill the real process), nothing may deadlock or spin, and a well-behaved canary connection keeps getting exactly one correct answer per request from the healthy host.", "§7 C17"),
- "C18": ("deterministic simulation in a -race build: the scenario families of C01/C02/C07/C08/C14/C16 under the token scheduler with the scheduler's own hand-offs hidden from the detector; Go race detector reports keyed by the pair of cql-proxy access sites",
+ "C18": ("deterministic simulation in a -race build: the scenario families of C01/C02/C07/C08/C14/C16 (plus C10, C15, C19) under the token scheduler with the scheduler's own hand-offs hidden from the detector; Go race detector reports keyed by the pair of cql-proxy access sites",
          "The same seeded scenario families run in a -race build of the instrumented proxy in which every simulator hand-off is wrapped in RaceDisable/RaceEnable and simulator code is norace, while each sim lock takes the real lock it replaces: the detector therefore sees exactly the program's own happens-before edges and reports every pair of conflicting accesses they leave unordered, on code paths (simultaneous connection loss, concurrent session creation, event fan-out, retries) that the scheduler reaches deliberately. Reports whose innermost non-library frame is harness code are ignored.", "§7 C18, §3.7"),
  "C19": ("deterministic simulation with Byzantine TLS peers and a controlled clock: real astra bundle loading/resolver/TLS configuration against fake metadata service and SNI proxy presenting each certificate-chain kind, certificates minted relative to the simulated clock (including expiry during the run)",
          "A secure-connect bundle is built in memory and loaded with the real loader; the real resolver and proxy connect over simulated TCP to a fake metadata service and a fake SNI proxy (crypto/tls servers run as sim tasks) that present each of: valid leaf, other CA, self-signed, wrong DNS name, expired, not yet valid, intermediate present/missing, no certificate, and a leaf that expires while the run's clock advances; the handshake must be accepted exactly when the chain verifies against the bundle CA for the bundle host at the simulated time, rejected servers receive zero application bytes, accepted ones see the bundle's client certificate and the node's host id (or the bundle host) as SNI.", "§7 C19"),
